@@ -187,8 +187,13 @@ class C02Oracle(Oracle):
             return False
         if not self.int_max:
             return False
-        if op.get("label") and ";" in op["label"]:
+        lab = op.get("label") if op["op"] != "distribute" else (op.get("kw") or {}).get("label")
+        if lab and not self.plain(lab):
+            # a label with a semicolon, a line break, a tab ... may be a reason for refusal of its own
             return False
+        for key in ("lab", "src", "dst"):
+            if isinstance(op.get(key), int) and not self.plain(self.world["labware"][op[key]]["name"]):
+                return False
         if op["op"] in ("transfer",) and not self.world["worklist"]["auto_split"]:
             return False
         if op["op"] in ("evo_aspirate", "evo_dispense"):
@@ -217,6 +222,12 @@ class C02Oracle(Oracle):
             # beyond the format range (incl. inf): the splitter / formatter may refuse first
             return False
         return True
+
+    @staticmethod
+    def plain(text):
+        """printable Latin-1 text without separators: nothing a stricter library could object to"""
+        return isinstance(text, str) and ";" not in text and all(32 <= ord(ch) <= 255 and ch != "\x7f" and not 0x80 <= ord(ch) <= 0x9f for ch in text) \
+            and text == text.strip()
 
     def any_above(self, op, lim=None):
         lim = dec(self.world["worklist"]["max_volume"]) if lim is None else lim
